@@ -18,7 +18,20 @@ def login(session_hex, length=44, salt=1):
 
 
 def ack(length=48, salt=3):
-    return bytes(_noise(length, salt))
+    """Acknowledgement of a command.  Nothing in the statements looks inside it; a third are plain noise, the others are
+    well-formed frames as a real device sends them (magic, own length in bytes 2-3, valid signature), half of those with
+    a 02 at offset 14 and a non-zero word at 16..19."""
+    b = bytearray(_noise(length, salt))
+    style = salt % 3
+    if style and length >= 24:
+        from . import crc
+        b[0:2] = b"\xfe\xf0"
+        b[2:4] = length.to_bytes(2, "little")
+        if style == 2:
+            b[14] = 2
+            b[16:20] = bytes([1 + salt % 200, 2, 3, 4])
+        b[-4:] = crc.signature(bytes(b[:-4]))
+    return bytes(b)
 
 
 def state1(on, power, time_left, time_on, auto_shutdown, salt=5, length=107):
